@@ -1,5 +1,6 @@
 import Lean.Data.Json
 import ArcaModel.Model.Dispatch
+import ArcaModel.Model.DispatchFunc
 /-
   Line-protocol driver: one JSON case per input line, one JSON result per output line.
   Runs the model's executable definitions; used by the correspondence checks.
@@ -8,7 +9,7 @@ open Lean Arca
 
 /-- every model's line-protocol handler: `op name → case → result` -/
 def handlers : List (String → Json → Option (Except String Json)) :=
-  [Arca.Dispatch.schemaHandler]
+  [Arca.Dispatch.schemaHandler, Arca.Dispatch.funcHandler]
 
 partial def loop (stdin stdout : IO.FS.Stream) : IO Unit := do
   let line ← stdin.getLine
